@@ -14,6 +14,7 @@ CLAUSES = {
     1506: "after lowering pool_size a new task was admitted although the running count was not below the limit (or an admissible one was not)",
     1507: "a request issued after the assignment does not respect the new limit",
     1508: "the setter raised for a non-negative value",
+    1509: "an accepted invocation that was waiting for room was lost when pool_size was assigned",
     77: "reachability twin",
 }
 FUNCTIONS = ["BaseTaskPool.pool_size (getter)", "BaseTaskPool.pool_size (setter)", "BaseTaskPool._start_task", "BaseTaskPool._task_ending"]
@@ -140,6 +141,30 @@ def tpl_reassign(old, k, x, y, d2, _twin=False):
         w.close(code)
 
 
+def tpl_eventually(old, d, new, _twin=False):
+    """d invocations requested on an old-sized pool (some run, some wait); pool_size = new >= 1 is assigned meanwhile
+    (what that assignment does to the limit is the open finding T6 and is not judged); then the running tasks finish
+    one by one.  Whatever the limit now is, it is >= 1: every accepted invocation must eventually happen."""
+    w = World("c15.eventually")
+    code = 0
+    try:
+        pool = TaskPool(pool_size=old)
+        it = Interp(w, pool, cbkind=0)
+        it.apply(d)
+        w.settle()
+        w.op("set", new)
+        pool.pool_size = new
+        w.settle()
+        w.drain()
+        if len(w.W) != d:
+            code = 1509
+        if _twin and not code and d > old:
+            code = 77
+        return code
+    finally:
+        w.close(code)
+
+
 def families(tier):
     thorough = tier == "thorough"
     P = ["old", "d", "op", "new", "d2", "simple"]
@@ -147,6 +172,9 @@ def families(tier):
     pre = ["old >= -1", "0 <= d <= %d" % dm, "0 <= op <= 1", "0 <= d2 <= 3", "op == 1 or (new == 0 and d2 == 0)", "0 <= simple <= 1"]
     return [Family(name="size", fn="tpl_size", params=P, pre=pre, parts=parts_product(d=range(dm + 1), op=(0, 1), simple=(0, 1)),
                    twin_pre=["d == 0", "op == 1"], twin_args=[1, 0, 1, 3, 2, 0]),
+            Family(name="eventually", fn="tpl_eventually", params=["old", "d", "new"],
+                   pre=["old >= 1", "1 <= d <= %d" % dm, "new >= 1"], parts=parts_product(d=range(1, dm + 1)),
+                   twin_pre=["d == 3"], twin_args=[1, 3, 2]),
             Family(name="reassign", fn="tpl_reassign", params=["old", "k", "x", "y", "d2"],
                    pre=["1 <= old", "1 <= k <= 3", "k <= old", "x >= 0", "y >= 0", "0 <= d2 <= 3"],
                    parts=parts_product(k=(1, 2, 3)), twin_pre=["k == 2"], twin_args=[3, 2, 1, 1, 3])]
